@@ -49,6 +49,42 @@ def queue_call(call: ast.Call) -> Optional[Tuple[str, str]]:
     return m, "blocking"
 
 
+class EagerFeeder(AnalysisError):
+    """the feeder thread (whose constructor resets per-call state of the pool) is built outside a generator body"""
+
+    def __init__(self, func, line, fields, feeder):
+        super().__init__(f"{func.name} constructs {feeder} eagerly (not inside a generator body)")
+        self.func, self.line, self.fields, self.feeder = func, line, fields, feeder
+
+
+def pool_facts(prog, rep, rule: Optional[str] = None):
+    """PoolFacts, with the eager-feeder arrangement reported as a violation under ``rule`` (when given) before the analysis stops"""
+    TEXT = ("per-call state is reset when the call's generator starts: the feeder thread, whose constructor resets the "
+            "pool's per-call fields, is constructed inside the generator body of imap / imap_unordered (lazily), not by a "
+            "plain method at call time")
+    try:
+        pf = PoolFacts(prog)
+        if rule:
+            rep.rule(rule, TEXT, floor=2)
+            for f in pf.consumers:
+                rep.fn(f)
+                rep.ok(rule, f, f"lazy-reset:{f.name}", f"{f.name} is a generator function and enters `with self.{pf.feeder.name}(...)` in its body")
+        return pf
+    except EagerFeeder as e:
+        if rule:
+            rep.rule(rule, "per-call state is reset when the call's generator starts: the feeder thread, whose constructor resets the "
+                     "pool's per-call fields, is constructed inside the generator body of imap / imap_unordered (lazily), not by a "
+                     "plain method at call time", floor=0)
+            rep.fn(e.func)
+            rep.viol(rule, e.func, "lazy-reset", f"{e.func.name} is not a generator function and constructs {e.feeder}(...) itself: the "
+                     f"reset of {', '.join('self.' + x for x in e.fields)} happens when {e.func.name}() is called, not when the returned "
+                     "generator is first advanced",
+                     scenario="g1 = pool.imap(f, a); g2 = pool.imap(f, b); list(g1); list(g2): the second generator starts with the "
+                              "flag cleared and the counter left by the first, so it never sees `finished == sent` (hangs) or stops early",
+                     line=e.line)
+        raise
+
+
 class PoolFacts:
     def __init__(self, prog: Program):
         P = self.P = prog
@@ -127,6 +163,27 @@ class PoolFacts:
                             self.consumer_with[f.qual] = n
                             self.consumer_loop[f.qual] = loops[0]
         if len(self.consumers) < 2:
+            # positively recognised: the feeder is constructed by a plain (non-generator) method although its constructor resets the
+            # pool's per-call state: the reset then happens when imap() is *called*, not when its generator is first advanced
+            init = P.resolve(self.feeder, "__init__")
+            ref = self.poolref[self.feeder.qual]
+            resets = []
+            if init is not None:
+                for n in walk_own(init.node):
+                    tg = n.targets if isinstance(n, ast.Assign) else [n.target] if isinstance(n, ast.AugAssign) else []
+                    for t in tg:
+                        d = dotted(t)
+                        if d and len(d) == 3 and d[0] == init.self_name and d[1] == ref:
+                            resets.append(d[2])
+                        if d and len(d) == 2 and init.params[1:2] and d[0] == init.params[1]:
+                            resets.append(d[1])
+            for f in self.pool.methods.values():
+                if f.is_generator or f.self_name is None:
+                    continue
+                for c in ast.walk(f.node):
+                    if isinstance(c, ast.Call) and isinstance(c.func, ast.Attribute) and c.func.attr == self.feeder.name \
+                            and isinstance(c.func.value, ast.Name) and c.func.value.id == f.self_name and resets:
+                        raise EagerFeeder(f, c.lineno, sorted(set(resets)), self.feeder.name)
             raise AnalysisError(f"only {len(self.consumers)} consumer(s) of the feeder thread found (floor 2)")
         self.consumers.sort(key=lambda f: f.node.lineno)
         # polled fields
